@@ -705,7 +705,7 @@ pub fn run(args: &Args) {
     crate::drive_parallel(
         &report,
         "tokens",
-        args.tier.pick(4_000, 120_000),
+        args.tier.pick(10_000, 120_000),
         doc_a,
         |d| {
             let c = case_a(d);
@@ -718,7 +718,7 @@ pub fn run(args: &Args) {
     crate::drive_parallel(
         &report,
         "schema",
-        args.tier.pick(4_000, 120_000),
+        args.tier.pick(10_000, 120_000),
         doc_b,
         |(d, m)| {
             let c = case_b(d, m);
